@@ -761,10 +761,15 @@ import (
 	"testing"
 
 	"github.com/wader/fq/internal/govcrt"%s
+	xtextencoding "golang.org/x/text/encoding"
 )
 
 func TestGovcReplay(t *testing.T) {
 	govcrt.StubFactory = func(s *govcrt.Stub, want reflect.Type) (reflect.Value, bool) {
+		if want.PkgPath() == "golang.org/x/text/encoding" && want.Name() == "Encoding" {
+			// a text encoding: the identity encoding stands in for any of them
+			return reflect.ValueOf(xtextencoding.Nop), true
+		}
 		n := len(s.Bits)
 		buf := make([]byte, (n+7)/8)
 		for i, c := range s.Bits {
